@@ -588,6 +588,9 @@ type loopSpec struct {
 	invs  []*Clause
 	decr  *Clause
 	extra map[string]*Value // cursor etc. visible to invariants
+	// map ranges: "the ranged map still has the entries it had at loop entry", evaluated in the state the
+	// invariant is evaluated in; visible to invariants as the boolean unchanged$k
+	rangedSame func(s *State) *Term
 }
 
 func (fr *frame) checkInvs(st *State, ls *loopSpec, phase string) {
@@ -595,6 +598,9 @@ func (fr *frame) checkInvs(st *State, ls *loopSpec, phase string) {
 	for k, v := range ls.extra {
 		env.vars[k] = v
 		env.old.vars[k] = v
+	}
+	if ls.rangedSame != nil {
+		env.vars[fmt.Sprintf("unchanged$%d", ls.ord)] = scalar(ls.rangedSame(st), types.Typ[types.Bool])
 	}
 	for i, cl := range ls.invs {
 		name := cl.Name
@@ -610,6 +616,9 @@ func (fr *frame) assumeInvs(st *State, ls *loopSpec) {
 	for k, v := range ls.extra {
 		env.vars[k] = v
 		env.old.vars[k] = v
+	}
+	if ls.rangedSame != nil {
+		env.vars[fmt.Sprintf("unchanged$%d", ls.ord)] = scalar(ls.rangedSame(st), types.Typ[types.Bool])
 	}
 	for _, cl := range ls.invs {
 		st.assume(env.evalBool(cl.Expr))
@@ -893,6 +902,33 @@ func (fr *frame) execRange(st *State, x *ast.RangeStmt, label string) []Outcome 
 		ls.extra[fmt.Sprintf("keys$%d", ord)] = &Value{K: VScalar, SpecKind: "seq", S: keys, Len: n, T: u.Key()}
 		ls.extra[fmt.Sprintf("pos$%d", ord)] = &Value{K: VScalar, SpecKind: "mmap", S: posm, T: types.Typ[types.Int]}
 		ls.extra[fmt.Sprintf("dom$%d", ord)] = &Value{K: VScalar, SpecKind: "set", S: dom0, T: types.Typ[types.Bool]}
+		// unchanged$k: "the ranged map still has the entries it had at loop entry", for invariants of loops
+		// that fill another map of the same type (the havoc is per map *type*, so without such an invariant
+		// what is known about the ranged map would be lost)
+		{
+			cls := mapClass(u)
+			type leafSnap struct {
+				class string
+				srt   *Sort
+				pre   *Term
+			}
+			var snaps []leafSnap
+			add := func(class string, srt *Sort) {
+				snaps = append(snaps, leafSnap{class, srt, st.loadLeaf(class, srt, rv.S)})
+			}
+			add(cls+"#dom", SArray(ks, SBool))
+			add(cls+"#card", SInt)
+			for _, l := range leavesOf(u.Elem()) {
+				add(cls+"#val"+l.Path, SArray(ks, l.Sort))
+			}
+			ls.rangedSame = func(s *State) *Term {
+				var cs []*Term
+				for _, sn := range snaps {
+					cs = append(cs, Eq(s.loadLeaf(sn.class, sn.srt, rv.S), sn.pre))
+				}
+				return Implies(Neq(rv.S, mkInt(0)), And(cs...))
+			}
+		}
 		prepare = func(s *State) {
 			key := scalar(Select(keys, cur(s)), u.Key())
 			s.assume(typeConstraints(key)...)
@@ -916,6 +952,7 @@ func (fr *frame) execRange(st *State, x *ast.RangeStmt, label string) []Outcome 
 		c := mkVar(freshName(fmt.Sprintf("idx$%d", ord)), SInt)
 		s.vars[cursor] = scalar(c, types.Typ[types.Int])
 		s.assume(Le(mkInt(0), c), Le(c, n))
+
 		if x.Key != nil && x.Tok == token.DEFINE {
 			if id, ok := x.Key.(*ast.Ident); ok && id.Name != "_" {
 				if _, isMap := rt.Underlying().(*types.Map); !isMap {
@@ -959,3 +996,30 @@ func (fr *frame) execRange(st *State, x *ast.RangeStmt, label string) []Outcome 
 }
 
 var _ = strings.HasPrefix
+
+// writesRanged: does the body of a range statement assign to an element of, or delete from, the
+// expression it ranges over (compared syntactically)?
+func writesRanged(x *ast.RangeStmt) bool {
+	target := exprString(x.X)
+	found := false
+	ast.Inspect(x.Body, func(n ast.Node) bool {
+		switch y := n.(type) {
+		case *ast.AssignStmt:
+			for _, l := range y.Lhs {
+				if ix, ok := unparen(l).(*ast.IndexExpr); ok && exprString(ix.X) == target {
+					found = true
+				}
+			}
+		case *ast.IncDecStmt:
+			if ix, ok := unparen(y.X).(*ast.IndexExpr); ok && exprString(ix.X) == target {
+				found = true
+			}
+		case *ast.CallExpr:
+			if id, ok := unparen(y.Fun).(*ast.Ident); ok && id.Name == "delete" && len(y.Args) == 2 && exprString(y.Args[0]) == target {
+				found = true
+			}
+		}
+		return true
+	})
+	return found
+}
